@@ -92,7 +92,7 @@ class Ghost:
         self.broken_at = None
         self.acceptfail = False
         self.prev = None      # previous parsed observation
-        self.known = {}       # peer -> set of addresses the oracle knows to be in the store
+        self.clash = False    # a label was bound twice (duplicated `as=` line): identities are ambiguous
 
     # -- contract (Model/Manager/Dial.lean `allowed`)
     def allowed(self, t):
@@ -144,6 +144,8 @@ class Ghost:
                     a["reports"].append((step, ev["k"]))
         if t[0] in ("dial", "dialaddr"):
             for kind, c, addrs in calls:
+                if kind in ("open", "dial") and c in self.used:
+                    self.clash = True
                 if kind == "open":
                     self.owed[c] = {"phase": "open", "peer": int(t[1]), "addrs": addrs}
                     self.ledger.append({"peer": int(t[1]), "conn": c, "carrier": c, "reports": [], "step": step})
